@@ -893,3 +893,495 @@ Proof.
     split; [rewrite Hrem; symmetry; apply pos_rem_mask; assumption|].
     split; [rewrite <- Hocc; apply occupied_of_mask; exact Hmk|]. rewrite Hcy. exact Hcc.
 Qed.
+
+Theorem one_turn_each_history : forall auto pa bufsize m0 cbs tr,
+  (dm_cycle m0 = CyCompleted -> occupied m0 <> []) ->
+  run_g auto pa bufsize m0 cbs = Ok tr ->
+  accepts (list nat) (cycle_inv (occupied m0)) (cycle_item (occupied m0)) (pos_rem m0) m0 tr.
+Proof.
+  intros auto pa bufsize m0 cbs tr Hinv H.
+  eapply (lift auto pa bufsize); [|split; [reflexivity|split; [reflexivity|exact Hinv]]|exact H].
+  intros m s c x log HI Hc. eapply cycle_step; eassumption.
+Qed.
+
+(* ------------------------------------------------------------------ lifting per-item properties *)
+
+Section LiftP.
+Variables (auto : bool) (pa : params) (bufsize : nat).
+Variable I : dpm -> Prop.
+Variable P : item -> Prop.
+Hypothesis Hstep : forall m c x log,
+  I m -> cstep_g pa bufsize m c = Ok (x, log) ->
+  P (mk_item auto m c x log) /\ I (it_m (mk_item auto m c x log)).
+
+Lemma liftP : forall cbs m tr, I m -> run_g auto pa bufsize m cbs = Ok tr -> Forall P tr /\ I (final m tr).
+Proof.
+  induction cbs as [|c r IH]; intros m tr HI H; cbn [run_g] in H.
+  - inversion H; subst. split; [constructor|exact HI].
+  - destruct (cstep_g pa bufsize m c) as [[x log]| |] eqn:Hc; cbn [bind] in H; try discriminate H.
+    destruct (run_g auto pa bufsize _ r) as [tr'| |] eqn:Hr; cbn [bind] in H; try discriminate H.
+    inversion H; subst. destruct (Hstep _ _ _ _ HI Hc) as [HP HI'].
+    destruct (IH _ _ HI' Hr) as [HF Hfin]. split; [constructor; assumption|exact Hfin].
+Qed.
+End LiftP.
+
+(* ------------------------------------------------------------------ C14_no_event_lost *)
+
+Definition opt_list {A} (o : option A) : list A := match o with Some x => [x] | None => [] end.
+
+(* events the peripherals produced in this callback: the Some(event) results of
+   Peripheral::transmit_telegram / Peripheral::receive_reply, with the handle of the slot *)
+Definition entry_event (e : gent) : list (handle * pevent) :=
+  match e with
+  | GSkip i p _ (Some ev) => [(mkHandle i (pe_addr p), ev)]
+  | GReply i p _ _ (Some ev) => [(mkHandle i (pe_addr p), ev)]
+  | _ => []
+  end.
+Definition produced (it : item) : list (handle * pevent) := flat_map entry_event (it_log it).
+
+(* events the application collected at this item: an explicit take_last_events() and the one that follows
+   every FdlApplication callback in auto mode *)
+Definition taken_events (it : item) : list dpevents :=
+  (match it_out it with OEvents e => [e] | _ => [] end) ++ opt_list (it_taken it).
+Definition collected (it : item) : list (handle * pevent) :=
+  flat_map (fun e => opt_list (ev_peripheral e)) (taken_events it).
+Definition collected_cc (it : item) : nat :=
+  length (filter ev_cycle_completed (taken_events it)).
+
+Definition bool_nat (b : bool) : nat := if b then 1%nat else 0%nat.
+
+Definition accounted (it : item) : Prop :=
+  collected it = produced it /\ collected_cc it = bool_nat (ev_cycle_completed (reported it)).
+
+Lemma handle_eta : forall hd p, hd_addr hd = pe_addr p -> mkHandle (hd_index hd) (pe_addr p) = hd.
+Proof. intros [i a] p H. cbn in *. subst. reflexivity. Qed.
+
+Lemma entry_event_skip : forall hd p p1 ev, hd_addr hd = pe_addr p ->
+  entry_event (GSkip (hd_index hd) p p1 ev) = opt_list (opt_pair hd ev).
+Proof. intros hd p p1 [e|] H; cbn; [rewrite (handle_eta _ _ H)|]; reflexivity. Qed.
+
+Lemma tx_rel_events : forall pa bufsize m m' o log,
+  tx_rel pa bufsize m m' o log -> flat_map entry_event log = opt_list (ev_peripheral (dm_events m')).
+Proof.
+  intros pa bufsize m m' o log H. induction H as
+    [m Hc|m index Hc Hg|m index hd p p1 h pdu o Hc Hg Hp Hs|m index hd p p1 ev m2 Hc Hg Hp Hi
+    |m index hd p p1 e m2 Hc Hg Hp Hi|m index hd p p1 m2 m' o log Hc Hg Hp Hi Hrel IH];
+    try reflexivity.
+  - destruct (cur_slot _ _ _ _ Hc Hg) as (r & _ & _ & Ha).
+    cbn [flat_map]. rewrite (entry_event_skip _ _ _ _ Ha). rewrite app_nil_r. reflexivity.
+  - destruct (cur_slot _ _ _ _ Hc Hg) as (r & _ & _ & Ha).
+    cbn [flat_map]. rewrite (entry_event_skip _ _ _ _ Ha). rewrite app_nil_r. reflexivity.
+  - cbn [flat_map entry_event app]. exact IH.
+Qed.
+
+Lemma accounted_step : forall pa bufsize m c x log,
+  dm_events m = events_default -> cstep_g pa bufsize m c = Ok (x, log) ->
+  accounted (mk_item true m c x log) /\ dm_events (it_m (mk_item true m c x log)) = events_default.
+Proof.
+  intros pa bufsize m c x log He H.
+  unfold accounted, collected, collected_cc, taken_events, produced, reported, mk_item.
+  cbn [it_out it_taken it_log it_cb it_post it_m].
+  destruct c as [now hp|a t|a| |h|h q|s].
+  - destruct (cstep_tx _ _ _ _ _ _ _ H) as (o & Ho & Hg). rewrite Ho.
+    unfold auto_take_m. cbn [andb is_bus fst snd dp_take_last_events opt_list app flat_map filter].
+    split; [|reflexivity]. rewrite app_nil_r.
+    destruct (dp_transmit_g_cases _ _ _ _ _ _ _ _ Hg) as
+      [(_ & Hm & _ & ->)|[(_ & _ & _ & Hm & -> & _)|(_ & _ & Hrel)]].
+    + rewrite Hm. split; reflexivity.
+    + rewrite Hm. split; reflexivity.
+    + rewrite (tx_rel_events _ _ _ _ _ _ Hrel). split; [reflexivity|].
+      destruct (ev_cycle_completed (dm_events (fst x))); reflexivity.
+  - destruct (cstep_rx _ _ _ _ _ _ _ H) as (Ho & Hg). rewrite Ho.
+    unfold auto_take_m. cbn [andb is_bus fst snd dp_take_last_events opt_list app flat_map filter].
+    split; [|reflexivity]. rewrite app_nil_r.
+    destruct (rx_cases _ _ _ _ _ Hg) as (index & hd & p & p1 & ev & m2 & cc & Hc & Hgi & _ & _ & Hi & Hm & ->).
+    destruct (cur_slot _ _ _ _ Hc Hgi) as (r & _ & _ & Ha).
+    rewrite Hm. cbn [dm_events set_events ev_peripheral ev_cycle_completed flat_map entry_event].
+    split; [|destruct cc; reflexivity].
+    destruct ev as [e|]; cbn; [rewrite (handle_eta _ _ Ha)|]; reflexivity.
+  - cbn in H. inversion H; subst. cbn. rewrite He. cbn. split; [split; reflexivity|reflexivity].
+  - cbn in H. inversion H; subst. cbn. rewrite He. cbn. split; [split; reflexivity|reflexivity].
+  - pose proof (other_cases _ _ _ _ _ _ H) as Ho. cbn beta iota in Ho. destruct Ho as [-> Ho].
+    assert (Hx : snd x = OUnit).
+    { cbn [cstep_g cstep] in H. destruct (dp_request_diagnostics m h); cbn [bind] in H; try discriminate H.
+      inversion H; reflexivity. }
+    rewrite Hx. cbn. split; [split; reflexivity|].
+    destruct Ho as [->|[->|[Hu|[s' ->]]]]; try assumption; try reflexivity.
+    destruct (user_upd_mask _ _ Hu) as (_ & _ & Hev & _). rewrite Hev. exact He.
+  - pose proof (other_cases _ _ _ _ _ _ H) as Ho. cbn beta iota in Ho. destruct Ho as [-> Ho].
+    assert (Hx : snd x = OUnit).
+    { cbn [cstep_g cstep] in H. destruct (dp_write_q m h q); cbn [bind] in H; try discriminate H.
+      inversion H; reflexivity. }
+    rewrite Hx. cbn. split; [split; reflexivity|].
+    destruct Ho as [->|[->|[Hu|[s' ->]]]]; try assumption; try reflexivity.
+    destruct (user_upd_mask _ _ Hu) as (_ & _ & Hev & _). rewrite Hev. exact He.
+  - cbn in H. inversion H; subst. cbn. split; [split; reflexivity|exact He].
+Qed.
+
+Theorem no_event_lost_history : forall pa bufsize m0 cbs tr,
+  dm_events m0 = events_default ->
+  run_g true pa bufsize m0 cbs = Ok tr ->
+  Forall accounted tr /\
+  flat_map collected tr = flat_map produced tr /\
+  fold_right (fun it n => (collected_cc it + n)%nat) 0%nat tr =
+  fold_right (fun it n => (bool_nat (ev_cycle_completed (reported it)) + n)%nat) 0%nat tr.
+Proof.
+  intros pa bufsize m0 cbs tr He H.
+  destruct (liftP true pa bufsize (fun m => dm_events m = events_default) accounted
+              (accounted_step pa bufsize) cbs m0 tr He H) as [HF _].
+  split; [exact HF|]. clear H. induction HF as [|it r [Hc Hn] _ [IH1 IH2]]; [split; reflexivity|].
+  cbn [flat_map fold_right]. rewrite Hc, IH1, Hn, IH2. split; reflexivity.
+Qed.
+
+(* ------------------------------------------------------------------ C14_lifecycle *)
+
+(* which (state, event, next state) triples Peripheral::receive_reply can produce *)
+Definition rx_allowed (s : pstate) (ev : option pevent) (s1 : pstate) : bool :=
+  match s, ev, s1 with
+  | PsOffline, Some EvOnline, PsWaitForParam => true
+  | PsOffline, None, PsOffline => true
+  | PsWaitForParam, None, PsWaitForConfig => true
+  | PsWaitForParam, None, PsWaitForParam => true
+  | PsWaitForConfig, None, PsValidateConfig => true
+  | PsWaitForConfig, None, PsWaitForConfig => true
+  | PsValidateConfig, Some EvParameterError, PsOffline => true
+  | PsValidateConfig, Some EvConfigError, PsOffline => true
+  | PsValidateConfig, None, PsWaitForParam => true
+  | PsValidateConfig, Some EvConfigured, PsPreDataExchange => true
+  | PsValidateConfig, None, PsValidateConfig => true
+  | PsPreDataExchange, Some EvDiagnostics, PsPreDataExchange => true
+  | PsPreDataExchange, Some EvDiagnostics, PsWaitForParam => true
+  | PsPreDataExchange, None, PsPreDataExchange => true
+  | PsPreDataExchange, Some EvDataExchanged, PsDataExchange => true
+  | PsPreDataExchange, None, PsValidateConfig => true
+  | PsDataExchange, Some EvDiagnostics, PsDataExchange => true
+  | PsDataExchange, Some EvDiagnostics, PsWaitForParam => true
+  | PsDataExchange, None, PsDataExchange => true
+  | PsDataExchange, Some EvDataExchanged, PsDataExchange => true
+  | PsDataExchange, None, PsValidateConfig => true
+  | _, _, _ => false
+  end.
+
+Lemma validate_outcome_allowed : forall f,
+  rx_allowed PsValidateConfig (snd (validate_outcome f)) (fst (validate_outcome f)) = true.
+Proof.
+  intro f. unfold validate_outcome.
+  repeat match goal with |- context [if ?c then _ else _] => destruct c end; reflexivity.
+Qed.
+
+Lemma receive_dx_outcome : forall p t p1 ev,
+  p_receive_dx p t = Ok (p1, ev) ->
+  (ev = Some EvDataExchanged /\ pe_state p1 = PsDataExchange) \/
+  (ev = None /\ (pe_state p1 = pe_state p \/ pe_state p1 = PsValidateConfig)).
+Proof.
+  intros p t p1 ev H. unfold p_receive_dx in H.
+  destruct t as [h pdu| |].
+  - destruct (h_fc h) as [|st s]; [discriminate|].
+    destruct s; cbn [fst snd] in H;
+    repeat match type of H with
+           | context [if ?c then _ else _] => destruct c eqn:?
+           end;
+    unfold copy_from_slice, bind in H;
+    repeat match type of H with
+           | context [if ?c then _ else _] => destruct c eqn:?
+           end;
+    try discriminate; inversion H; subst; cbn; auto.
+  - discriminate.
+  - destruct (negb (length (pe_pi_i p) =? 0)%nat); inversion H; subst; cbn; auto.
+Qed.
+
+Lemma receive_reply_outcome : forall p t p1 ev,
+  p_receive_reply p t = Ok (p1, ev) ->
+  rx_allowed (pe_state p) ev (pe_state p1) = true /\
+  (pe_state p1 = PsOffline -> pe_state p = PsOffline /\ pe_retry p1 = pe_retry p \/ pe_retry p1 = 0) /\
+  pe_addr p1 = pe_addr p.
+Proof.
+  intros p t p1 ev H. unfold p_receive_reply in H.
+  destruct (pe_state p) eqn:Hst.
+  - unfold bind in H. destruct (p_handle_diag p t) as [[p2 d]| |] eqn:Hd; try discriminate.
+    apply handle_diag_frame in Hd. destruct Hd as (Ha & Hs & Hr & _ & _ & _ & _ & _ & Hn & _).
+    destruct d; inversion H; subst; cbn.
+    + split; [reflexivity|]. split; [discriminate|exact Ha].
+    + rewrite (Hn eq_refl). rewrite Hst. split; [reflexivity|]. split; [left; split; reflexivity|reflexivity].
+  - destruct (is_sc t); unfold bind in H.
+    + destruct (fcb_cycle (pe_fcb p)); try discriminate. inversion H; subst. cbn.
+      split; [reflexivity|]. split; [discriminate|reflexivity].
+    + inversion H; subst. rewrite Hst. split; [reflexivity|]. split; [discriminate|reflexivity].
+  - destruct (is_sc t); unfold bind in H.
+    + destruct (fcb_cycle (pe_fcb p)); try discriminate. inversion H; subst. cbn.
+      split; [reflexivity|]. split; [discriminate|reflexivity].
+    + inversion H; subst. rewrite Hst. split; [reflexivity|]. split; [discriminate|reflexivity].
+  - unfold bind in H. destruct (p_handle_diag (set_retry p 0) t) as [[p2 d]| |] eqn:Hd; try discriminate.
+    apply handle_diag_frame in Hd. destruct Hd as (Ha & Hs & Hr & _).
+    destruct d.
+    + pose proof (validate_outcome_allowed (d_flags d)) as Hv.
+      destruct (validate_outcome (d_flags d)) as [s e]. inversion H; subst; cbn in *.
+      split; [exact Hv|]. split; [intros _; right; exact Hr|exact Ha].
+    + inversion H; subst; cbn. split; [reflexivity|]. split; [discriminate|exact Ha].
+  - destruct (pe_diag_in_flight p) eqn:Hfl; unfold bind in H.
+    + destruct (p_handle_diag p t) as [[p2 d]| |] eqn:Hd; try discriminate.
+      apply handle_diag_frame in Hd. destruct Hd as (Ha & Hs & Hr & _ & _ & _ & _ & _ & Hn & _).
+      destruct d.
+      * destruct (flags_contains (d_flags d) DF_PARAMETER_REQUIRED); inversion H; subst; cbn;
+          rewrite ?Hs, ?Hst; (split; [reflexivity|]); (split; [discriminate|exact Ha]).
+      * inversion H; subst. rewrite (Hn eq_refl), Hst. split; [reflexivity|]. split; [discriminate|reflexivity].
+    + destruct (p_receive_dx p t) as [[p2 e1]| |] eqn:Hdx; try discriminate.
+      pose proof (receive_dx_outcome _ _ _ _ Hdx) as Ho.
+      apply receive_dx_frame in Hdx. destruct Hdx as (_ & _ & _ & Ha & _).
+      destruct (fcb_cycle (pe_fcb (set_retry p2 0))); try discriminate.
+      inversion H; subst. cbn. rewrite Hst in Ho.
+      destruct Ho as [[-> ->]|[-> [->| ->]]]; (split; [reflexivity|]); (split; [discriminate|exact Ha]).
+  - destruct (pe_diag_in_flight p) eqn:Hfl; unfold bind in H.
+    + destruct (p_handle_diag p t) as [[p2 d]| |] eqn:Hd; try discriminate.
+      apply handle_diag_frame in Hd. destruct Hd as (Ha & Hs & Hr & _ & _ & _ & _ & _ & Hn & _).
+      destruct d.
+      * destruct (flags_contains (d_flags d) DF_PARAMETER_REQUIRED); inversion H; subst; cbn;
+          rewrite ?Hs, ?Hst; (split; [reflexivity|]); (split; [discriminate|exact Ha]).
+      * inversion H; subst. rewrite (Hn eq_refl), Hst. split; [reflexivity|]. split; [discriminate|reflexivity].
+    + destruct (p_receive_dx p t) as [[p2 e1]| |] eqn:Hdx; try discriminate.
+      pose proof (receive_dx_outcome _ _ _ _ Hdx) as Ho.
+      apply receive_dx_frame in Hdx. destruct Hdx as (_ & _ & _ & Ha & _).
+      destruct (fcb_cycle (pe_fcb (set_retry p2 0))); try discriminate.
+      inversion H; subst. cbn. rewrite Hst in Ho.
+      destruct Ho as [[-> ->]|[-> [->| ->]]]; (split; [reflexivity|]); (split; [discriminate|exact Ha]).
+Qed.
+
+(* the automaton state a peripheral state is compatible with: Off = not live; Cfg is required in the two
+   data exchange states; On or Cfg otherwise (Cfg remains after a re-validation / re-parameterisation) *)
+Definition agree_b (l : lstate) (s : pstate) : bool :=
+  match s with
+  | PsOffline => lstate_eqb l LOff
+  | PsPreDataExchange | PsDataExchange => lstate_eqb l LCfg
+  | _ => negb (lstate_eqb l LOff)
+  end.
+
+Lemma rx_allowed_life : forall l s ev s1,
+  agree_b l s = true -> rx_allowed s ev s1 = true ->
+  match ev with
+  | Some e => match l_step l e with Some l' => agree_b l' s1 | None => false end
+  | None => agree_b l s1
+  end = true.
+Proof.
+  intros l s ev s1. destruct l, s, ev as [[]|], s1; cbn; intros H1 H2; try reflexivity; try discriminate.
+Qed.
+
+Definition agree (l : lstate) (p : periph) : Prop :=
+  agree_b l (pe_state p) = true /\ (pe_state p = PsOffline -> pe_retry p <= 1).
+
+(* the public reading: is_live / is_running *)
+Lemma agree_public : forall l p, agree l p ->
+  is_live p = negb (lstate_eqb l LOff) /\ (is_running p = true -> l = LCfg) /\
+  (l = LOff <-> pe_state p = PsOffline).
+Proof.
+  intros l p [H _]. unfold is_live, is_running. destruct l, (pe_state p); cbn in *; try discriminate H;
+    repeat split; try reflexivity; try discriminate; intros; discriminate.
+Qed.
+
+Lemma rx_agree : forall l p t p1 ev,
+  agree l p -> p_receive_reply p t = Ok (p1, ev) ->
+  match ev with
+  | Some e => exists l', l_step l e = Some l' /\ agree l' p1
+  | None => agree l p1
+  end.
+Proof.
+  intros l p t p1 ev [Ha Hr] H. destruct (receive_reply_outcome _ _ _ _ H) as (Hal & Hoff & _).
+  pose proof (rx_allowed_life _ _ _ _ Ha Hal) as Hl.
+  assert (Hretry : pe_state p1 = PsOffline -> pe_retry p1 <= 1).
+  { intro E. destruct (Hoff E) as [[E1 E2]|E2]; [rewrite E2; apply Hr; exact E1|lia]. }
+  destruct ev as [e|].
+  - destruct (l_step l e) as [l'|]; [|discriminate Hl]. exists l'. split; [reflexivity|]. split; assumption.
+  - split; assumption.
+Qed.
+
+Lemma offline_send_retry : forall pa op p p' h pdu,
+  p_transmit pa op p = Ok (p', PtxSend h pdu) -> pe_state p = PsOffline -> pe_retry p = 0.
+Proof.
+  intros pa op p p' h pdu H Hst. unfold p_transmit in H.
+  destruct (opstate_eqb op OpStop); [discriminate|].
+  unfold p_transmit_select in H. rewrite Hst in H.
+  destruct (dp_retry_exhausted (pe_retry p) (p_max_retry pa)); [discriminate|].
+  destruct (pe_retry p =? dp_offline_probe_retry) eqn:E; [|discriminate].
+  apply Z.eqb_eq in E. exact E.
+Qed.
+
+Lemma tx_agree : forall pa op l p p1 r,
+  1 <= p_max_retry pa -> agree l p -> p_transmit pa op p = Ok (p1, r) ->
+  match r with
+  | PtxSkip (Some e) => exists l', l_step l e = Some l' /\ agree l' p1
+  | _ => agree l p1
+  end.
+Proof.
+  intros pa op l p p1 r Hmax [Ha Hr] H. pose proof (transmit_spec _ _ _ _ _ H) as Hs.
+  destruct r as [h pdu|[e|]].
+  - destruct Hs as (_ & _ & _ & _ & _ & Hre & Hst). split; [rewrite Hst; exact Ha|].
+    intro E. rewrite Hst in E. rewrite Hre. rewrite (offline_send_retry _ _ _ _ _ _ H E). lia.
+  - destruct Hs as (-> & Hex & _ & Hst & Hre).
+    assert (Hlive : pe_state p <> PsOffline).
+    { intro E. specialize (Hr E). unfold dp_retry_exhausted in Hex. apply Z.ltb_lt in Hex. lia. }
+    destruct l; destruct (pe_state p); cbn in Ha; try discriminate Ha; try (now elim Hlive);
+      (eexists; split; [reflexivity|]; split; [rewrite Hst; reflexivity|intros _; rewrite Hre; lia]).
+  - destruct Hs as (_ & Hre & Hst & _). split; [rewrite Hst; exact Ha|]. intros _. rewrite Hre. lia.
+Qed.
+
+(* the monitor: per slot the state of the life-cycle automaton DpOracle.l_step *)
+Definition upd (f : nat -> lstate) (i : nat) (l : lstate) : nat -> lstate :=
+  fun j => if Nat.eqb j i then l else f j.
+
+Fixpoint life_events (life : nat -> lstate) (evs : list (handle * pevent)) : option (nat -> lstate) :=
+  match evs with
+  | [] => Some life
+  | (h, ev) :: r =>
+      match l_step (life (hd_index h)) ev with
+      | Some l' => life_events (upd life (hd_index h) l') r
+      | None => None
+      end
+  end.
+
+Definition life_item (life : nat -> lstate) (it : item) : option (nat -> lstate) :=
+  life_events life (produced it).
+
+Definition life_inv (m : dpm) (life : nat -> lstate) : Prop :=
+  forall i p, slot m i = Some p -> agree (life i) p.
+
+Lemma life_inv_put : forall m life i p p1 l',
+  life_inv m life -> slot m i = Some p -> agree l' p1 ->
+  life_inv (set_slots m (put_slot (dm_slots m) i p1)) (upd life i l').
+Proof.
+  intros m life i p p1 l' HI Hs Ha j q Hq. unfold upd.
+  destruct (Nat.eqb j i) eqn:E.
+  - apply Nat.eqb_eq in E. subst j. rewrite (slot_put_same _ _ p1 _ Hs) in Hq. inversion Hq; subst. exact Ha.
+  - apply Nat.eqb_neq in E. rewrite slot_put_other in Hq by (intro; subst; now elim E). apply HI. exact Hq.
+Qed.
+
+Lemma life_inv_put_same : forall m life i p p1,
+  life_inv m life -> slot m i = Some p -> agree (life i) p1 ->
+  life_inv (set_slots m (put_slot (dm_slots m) i p1)) life.
+Proof.
+  intros m life i p p1 HI Hs Ha j q Hq.
+  destruct (Nat.eqb j i) eqn:E.
+  - apply Nat.eqb_eq in E. subst j. rewrite (slot_put_same _ _ p1 _ Hs) in Hq. inversion Hq; subst. exact Ha.
+  - apply Nat.eqb_neq in E. rewrite slot_put_other in Hq by (intro; subst; now elim E). apply HI. exact Hq.
+Qed.
+
+Lemma life_inv_slots : forall m m' life, dm_slots m' = dm_slots m -> life_inv m life -> life_inv m' life.
+Proof. intros m m' life H HI i p Hs. apply HI. unfold slot in *. rewrite <- H. exact Hs. Qed.
+
+Lemma tx_rel_life : forall pa bufsize m m' o log,
+  1 <= p_max_retry pa ->
+  tx_rel pa bufsize m m' o log -> forall life, life_inv m life ->
+  exists life', life_events life (flat_map entry_event log) = Some life' /\ life_inv m' life'.
+Proof.
+  intros pa bufsize m m' o log Hmax H. induction H as
+    [m Hc|m index Hc Hg|m index hd p p1 h pdu o Hc Hg Hp Hs|m index hd p p1 ev m2 Hc Hg Hp Hi
+    |m index hd p p1 e m2 Hc Hg Hp Hi|m index hd p p1 m2 m' o log Hc Hg Hp Hi Hrel IH]; intros life HI.
+  - exists life. split; [reflexivity|]. eapply life_inv_slots; [|exact HI]. reflexivity.
+  - exists life. split; [reflexivity|]. eapply life_inv_slots; [|exact HI]. reflexivity.
+  - destruct (cur_slot _ _ _ _ Hc Hg) as (r & _ & Hsl & _).
+    exists life. split; [reflexivity|].
+    pose proof (tx_agree _ _ _ _ _ _ Hmax (HI _ _ Hsl) Hp) as Ha. cbn beta iota in Ha.
+    eapply life_inv_slots; [|eapply life_inv_put_same; eassumption]. reflexivity.
+  - destruct (cur_slot _ _ _ _ Hc Hg) as (r & Hr & Hsl & Hadr).
+    destruct (put_cur_facts m hd p p1 Hsl) as (_ & Hcy & Hpr & _). rewrite Hc in Hcy. rewrite Hr in Hpr.
+    destruct (increment_pos _ _ _ _ _ _ Hcy Hpr Hi) as (Hsl2 & _).
+    pose proof (tx_agree _ _ _ _ _ _ Hmax (HI _ _ Hsl) Hp) as Ha.
+    cbn [flat_map]. rewrite app_nil_r. rewrite (entry_event_skip _ _ _ _ Hadr).
+    destruct ev as [e|]; cbn [opt_pair opt_list life_events].
+    + destruct Ha as (l' & Hl & Ha). rewrite Hl. eexists. split; [reflexivity|].
+      eapply life_inv_slots; [|eapply life_inv_put; eassumption]. cbn. rewrite Hsl2. reflexivity.
+    + eexists. split; [reflexivity|].
+      eapply life_inv_slots; [|eapply life_inv_put_same; eassumption]. cbn. rewrite Hsl2. reflexivity.
+  - destruct (cur_slot _ _ _ _ Hc Hg) as (r & Hr & Hsl & Hadr).
+    destruct (put_cur_facts m hd p p1 Hsl) as (_ & Hcy & Hpr & _). rewrite Hc in Hcy. rewrite Hr in Hpr.
+    destruct (increment_pos _ _ _ _ _ _ Hcy Hpr Hi) as (Hsl2 & _).
+    pose proof (tx_agree _ _ _ _ _ _ Hmax (HI _ _ Hsl) Hp) as Ha.
+    cbn [flat_map]. rewrite app_nil_r. rewrite (entry_event_skip _ _ _ _ Hadr).
+    cbn [opt_pair opt_list life_events].
+    destruct Ha as (l' & Hl & Ha). rewrite Hl. eexists. split; [reflexivity|].
+    eapply life_inv_slots; [|eapply life_inv_put; eassumption]. cbn. rewrite Hsl2. reflexivity.
+  - destruct (cur_slot _ _ _ _ Hc Hg) as (r & Hr & Hsl & Hadr).
+    destruct (put_cur_facts m hd p p1 Hsl) as (_ & Hcy & Hpr & _). rewrite Hc in Hcy. rewrite Hr in Hpr.
+    destruct (increment_pos _ _ _ _ _ _ Hcy Hpr Hi) as (Hsl2 & _).
+    pose proof (tx_agree _ _ _ _ _ _ Hmax (HI _ _ Hsl) Hp) as Ha. cbn beta iota in Ha.
+    cbn [flat_map entry_event app]. apply IH.
+    eapply life_inv_slots; [|eapply life_inv_put_same; eassumption]. rewrite Hsl2. reflexivity.
+Qed.
+
+Lemma life_inv_events : forall m life e, life_inv m life -> life_inv (set_events m e) life.
+Proof. intros. eapply life_inv_slots; [|eassumption]. reflexivity. Qed.
+
+Lemma life_inv_take : forall auto c m life,
+  life_inv m life -> life_inv (fst (auto_take_m auto c m)) life.
+Proof.
+  intros auto c m life H. unfold auto_take_m. destruct (auto && is_bus c); [|exact H].
+  cbn. apply life_inv_events. exact H.
+Qed.
+
+Lemma same_ctrl_agree : forall l p p', same_ctrl p p' -> agree l p -> agree l p'.
+Proof.
+  intros l p p' (_ & Hs & Hr & _) [Ha Hb]. unfold agree. rewrite Hs, Hr. split; assumption.
+Qed.
+
+Lemma life_step : forall auto pa bufsize m life c x log,
+  1 <= p_max_retry pa ->
+  life_inv m life -> cstep_g pa bufsize m c = Ok (x, log) ->
+  exists life', life_item life (mk_item auto m c x log) = Some life' /\
+                life_inv (it_m (mk_item auto m c x log)) life'.
+Proof.
+  intros auto pa bufsize m life c x log Hmax HI H.
+  unfold life_item, produced, mk_item. cbn [it_log it_m].
+  destruct c as [now hp|a t|a| |h|h q|s].
+  - destruct (cstep_tx _ _ _ _ _ _ _ H) as (o & _ & Hg).
+    destruct (dp_transmit_g_cases _ _ _ _ _ _ _ _ Hg) as
+      [(_ & Hm & _ & ->)|[(_ & _ & _ & Hm & -> & _)|(_ & _ & Hrel)]].
+    + exists life. split; [reflexivity|]. apply life_inv_take. rewrite Hm. apply life_inv_events. exact HI.
+    + exists life. split; [reflexivity|]. apply life_inv_take. rewrite Hm.
+      eapply life_inv_slots; [|exact HI]. reflexivity.
+    + destruct (tx_rel_life _ _ _ _ _ _ Hmax Hrel life HI) as (life' & Hl & HI').
+      exists life'. split; [exact Hl|]. apply life_inv_take. exact HI'.
+  - destruct (cstep_rx _ _ _ _ _ _ _ H) as (_ & Hg).
+    destruct (rx_cases _ _ _ _ _ Hg) as (index & hd & p & p1 & ev & m2 & cc & Hc & Hgi & _ & Hrx & Hi & Hm & ->).
+    destruct (cur_slot _ _ _ _ Hc Hgi) as (r & Hr & Hsl & Hadr).
+    destruct (put_cur_facts m hd p p1 Hsl) as (_ & Hcy & Hpr & _). rewrite Hc in Hcy. rewrite Hr in Hpr.
+    destruct (increment_pos _ _ _ _ _ _ Hcy Hpr Hi) as (Hsl2 & _).
+    pose proof (rx_agree _ _ _ _ _ (HI _ _ Hsl) Hrx) as Ha.
+    cbn [flat_map entry_event]. rewrite app_nil_r.
+    destruct ev as [e|]; cbn [life_events hd_index].
+    + destruct Ha as (l' & Hl & Ha). rewrite Hl. eexists. split; [reflexivity|].
+      apply life_inv_take. rewrite Hm. apply life_inv_events.
+      eapply life_inv_slots; [|eapply life_inv_put; eassumption]. cbn. rewrite Hsl2. reflexivity.
+    + eexists. split; [reflexivity|]. apply life_inv_take. rewrite Hm. apply life_inv_events.
+      eapply life_inv_slots; [|eapply life_inv_put_same; eassumption]. cbn. rewrite Hsl2. reflexivity.
+  - cbn in H. inversion H; subst. exists life. split; [reflexivity|]. apply life_inv_take. exact HI.
+  - cbn in H. inversion H; subst. exists life. split; [reflexivity|]. apply life_inv_take.
+    apply life_inv_events. exact HI.
+  - pose proof (other_cases _ _ _ _ _ _ H) as Ho. cbn beta iota in Ho. destruct Ho as [-> Ho].
+    exists life. split; [reflexivity|]. apply life_inv_take.
+    destruct Ho as [->|[->|[Hu|[s' ->]]]]; try exact HI; try (apply life_inv_events; exact HI).
+    destruct Hu as (i & p & p' & Hs & -> & Hsc). eapply life_inv_put_same; try eassumption.
+    eapply same_ctrl_agree; [exact Hsc|]. apply HI. exact Hs.
+  - pose proof (other_cases _ _ _ _ _ _ H) as Ho. cbn beta iota in Ho. destruct Ho as [-> Ho].
+    exists life. split; [reflexivity|]. apply life_inv_take.
+    destruct Ho as [->|[->|[Hu|[s' ->]]]]; try exact HI; try (apply life_inv_events; exact HI).
+    destruct Hu as (i & p & p' & Hs & -> & Hsc). eapply life_inv_put_same; try eassumption.
+    eapply same_ctrl_agree; [exact Hsc|]. apply HI. exact Hs.
+  - cbn in H. inversion H; subst. exists life. split; [reflexivity|]. apply life_inv_take.
+    eapply life_inv_slots; [|exact HI]. reflexivity.
+Qed.
+
+Theorem lifecycle_history : forall auto pa bufsize m0 life0 cbs tr,
+  1 <= p_max_retry pa -> life_inv m0 life0 ->
+  run_g auto pa bufsize m0 cbs = Ok tr ->
+  accepts (nat -> lstate) life_inv life_item life0 m0 tr.
+Proof.
+  intros auto pa bufsize m0 life0 cbs tr Hmax HI H.
+  eapply (lift auto pa bufsize); [|exact HI|exact H].
+  intros m s c x log HI' Hc. eapply life_step; eassumption.
+Qed.
+
+(* fresh peripherals (what Peripheral::new produces) start with the automaton in Off *)
+Definition fresh (p : periph) : Prop := pe_state p = PsOffline /\ pe_retry p = 0 /\ pe_fcb p <> FcbInactive.
+
+Lemma fresh_life_inv : forall m, (forall i p, slot m i = Some p -> fresh p) -> life_inv m (fun _ => LOff).
+Proof.
+  intros m H i p Hs. destruct (H _ _ Hs) as (Hst & Hr & _). split; [rewrite Hst; reflexivity|]. intros _. lia.
+Qed.
